@@ -126,3 +126,78 @@ def m_nondet(mir, res, tier):
         res.inst(key, True, s)
         if s["mut"] or re.search(r"Mutex|RwLock|RefCell|Cell<|Atomic|OnceCell|OnceLock|Lazy", s["ty"]):
             res.fail(key, s["path"], "static %s holds mutable state shared between compilations" % s["path"])
+
+
+# ----------------------------------------------------------------------------- C16 (byte indices into text)
+
+
+STRING_INDEX_CALLS = r"^(std::string::String::(truncate|insert|insert_str|remove|split_off|drain|replace_range)|core::str::<impl str>::(split_at|split_at_mut|split_at_checked))$"
+
+
+@rule("M-CHAR-BOUNDARY", engine="mir", floor=5,
+      text="String::truncate / insert / insert_str / remove / split_off / drain / replace_range and str::split_at panic when their byte index is "
+           "not on a character boundary.  Every call that resolves to one of them outside the preprocessor (whose slices T-SLICE-BOUNDS decides) takes "
+           "an index that is one: a literal k under a dominating `starts_with(<ASCII literal of at least k bytes>)` on the same text, or a value the "
+           "text itself delivered (len(), find(..), char_indices()), or a literal moved down under `is_char_boundary`.  Source text may hold any UTF-8 "
+           "(comments, strings, the listing of --insert_code)")
+def m_char_boundary(mir, res, tier):
+    from astlib import load_facts, walk, expr_text
+    from scopes import scoped
+    facts = load_facts(mir.config, mir.repo)
+    n = 0
+    for f in mir.fns:
+        for c in f["calls"]:
+            m = re.match(STRING_INDEX_CALLS, c["callee"])
+            if not m or c["file"].endswith("cpp.rs") or "/tests/" in c["file"] or c["file"].endswith("lib.rs"):
+                continue
+            meth = m.group(2) or m.group(3)
+            fname = mir.short(f["path"])
+            cands = [g for g in facts.fns if g["name"] == fname and facts.rel(g["file"]) == c["file"]]
+            site = None
+            for g in cands:
+                for node, env, doms in scoped(g):
+                    if node.get("k") == "mcall" and node["method"] == meth and str(node.get("loc", "")).split(":")[0] == str(c["line"]):
+                        site = (g, node, env, doms)
+            n += 1
+            if site is None:
+                res.fail("M-CHAR-BOUNDARY:%s:%s:unlocated" % (fname, meth), "%s:%s" % (c["file"], c["line"]), "cannot find the %s call of %s in the syntax tree" % (meth, fname))
+                continue
+            g, node, env, doms = site
+            idx = node["args"][0] if node.get("args") else None
+            recv = expr_text(node["recv"]).replace(" ", "")
+            it = expr_text(idx).replace(" ", "") if idx is not None else "?"
+            key = "M-CHAR-BOUNDARY:%s:%s(%s)" % (fname, meth, it[:20])
+            ok = None
+            if idx is not None and idx.get("k") == "lit" and isinstance(idx.get("v"), int):
+                k = idx["v"]
+                if k == 0:
+                    # index 0 is a boundary; remove(0) needs a first character that is one byte: an ASCII starts_with test
+                    if meth != "remove":
+                        ok = "index 0"
+                for d in doms:
+                    if d[0] == "cond" and d[2]:
+                        for y in walk(d[1]):
+                            if y.get("k") == "mcall" and y["method"] == "starts_with" and y.get("args") and y["args"][0].get("k") == "lit" and expr_text(y["recv"]).replace(" ", "") == recv:
+                                lit = str(y["args"][0]["v"])
+                                if lit.isascii() and len(lit) >= max(k, 1):
+                                    ok = "under starts_with(%r)" % lit
+                    if d[0] == "cond" and d[2] and "is_char_boundary" in expr_text(d[1]):
+                        ok = "under is_char_boundary"
+            elif idx is not None:
+                names = {x["segs"][0] for x in walk(idx) if x.get("k") == "path" and len(x["segs"]) == 1}
+                derived = False
+                for nm in names:
+                    b = env.get(nm)
+                    src = expr_text(b.init) if b is not None and b.init is not None else ""
+                    if re.search(r"\.(len|find|rfind|char_indices|floor_char_boundary)\(", src) or "is_char_boundary" in src:
+                        derived = True
+                    if b is not None and b.src == "let" and any(d[0] == "stmt" and d[1].get("k") in ("while", "loop") and "is_char_boundary" in expr_text(d[1]) and nm in expr_text(d[1]) for d in doms):
+                        derived = True
+                if re.search(r"\.(len|find|rfind)\(", it):
+                    derived = True
+                if derived:
+                    ok = "index delivered by the text itself / moved onto a boundary"
+            res.inst(key, True, {"function": fname, "call": "%s.%s(%s)" % (recv[:30], meth, it[:30]), "boundary_because": ok})
+            if ok is None:
+                res.fail(key, facts.where(g, node), "%s calls `%s.%s(%s)`: nothing puts byte %s on a character boundary of that text, and a multi-byte character across it makes the call panic (a listing line of more than 256 bytes with an accented letter at byte 255)" % (fname, recv[:30], meth, it[:30], it[:30]))
+    res.note("%d String/str calls taking a byte index" % n)
